@@ -10,6 +10,15 @@ CLAIMED = {
 CLAIMED["C19"] = dict(technique="exhaustive (line length x column) enumeration + rapid lines with tabs/multi-byte runes, judged by a validity predicate over the rendered message",
    text="All line lengths 0..3x the display limit x all columns 1..len+1 are rendered through the public Reporter with a hand-made analysis.Pass (real token.File line table, ReadFile closure) and judged by a validity predicate: shown line is a window of the right source line, ellipses exactly on cut sides, length <= limit+markers (in characters), caret cell = cell of the reported byte with tabs mirrored, context lines are the neighbours; rapid adds tabs, multi-byte runes, 100 kB lines, unreadable and short files.",
    note="cells = runes, no double-width runes; column len+1 only judged for boundedness; position-encoded content makes the shown window locatable", ref="DESIGN.md section 3, C19")
+
+_exact_note = "oracle is the model's reading of the property statement; shapes the statement leaves open are tolerated (counted as 'open'), never required; in-process driver = real x/tools checker.Analyze + real analyzers, package loading by the harness (every 60th program also through the standalone binary)"
+for _pid, _what in [("C01", "@immutable: IMM01-04 incl. receiver overwrite/incdec; negatives @mutable, constructors, reads, unannotated twins"),
+                    ("C02", "@constructor: CTOR01-03 over literal / elided / new / var shapes, package-level and in-function, constructor-name decoys"),
+                    ("C03", "@testonly: TONL01 once per file and type, TONL02/03 per call; test files and @testonly declarations exempt; name decoys"),
+                    ("C04", "@packageonly: union of allow lists by path or name; PKGO01 once per file and type, PKGO02/03 per reference")]:
+    CLAIMED[_pid] = dict(technique="rapid-generated multi-package programs from a program model; expected diagnostics computed from the model (not from the analyzer), compared as exact (site, code) sets",
+        text="Programs are constructed (never filtered) from a model of packages, types, annotations, functions, methods, package-level initialisers and one-site-per-line statements under random nesting, file placement and declaration order; the real analyzers run on them and the diagnostics of this category must equal the model's expectation in both directions. " + _what + ".",
+        note=_exact_note, ref="DESIGN.md section 3, " + _pid)
 ALL = ["C%02d" % i for i in range(1, 20)]
 NA_REASON = {}
 def main():
